@@ -341,12 +341,12 @@ Proof.
 Qed.
 
 (* fuel that suffices for __mul__: every intermediate sum has at most len(self) * len(other) terms *)
-Definition msize (p : poly) : nat := list_sum (map (fun m : mono => length (snd m)) p).
+Fixpoint msize (p : poly) : nat := match p with [] => 0 | m :: r => length (snd m) + msize r end.
 Definition mul_fuel (p q : poly) : nat := (length p * length q + msize p + msize q + 2)%nat.
 
 Lemma brp_msize_in m p : In m p -> (length (snd m) <= msize p)%nat.
 Proof.
-  unfold msize. induction p as [|x p IH]; [intros []|]. cbn [map list_sum fold_right] in *. intros [->|H]; [lia|]. specialize (IH H). lia.
+  induction p as [|x p IH]; [intros []|]. cbn [msize]. intros [->|H]; [lia|]. specialize (IH H). lia.
 Qed.
 
 Lemma br_mul_loop p q fuel : (mul_fuel p q <= fuel)%nat ->
@@ -378,3 +378,25 @@ Proof.
     replace (gen_mul_for f a b l r) with (Some (encp (pmul_loop p (P_of_Z c)))) by (symmetry; exact HL) end.
   reflexivity.
 Qed.
+
+(* the translated methods of Polynomial, together *)
+Theorem br_methods : forall (p q : poly) (c : Z) (fuel : nat),
+  gen_eq_int (encp p) c = Some (peq_Z p c) /\ gen_eq (encp p) (encp q) = Some (peq p q) /\
+  gen_bool (encp p) = Some (pbool p) /\ gen_neg (encp p) = Some (encp (pneg p)) /\
+  ((length p + length q < fuel)%nat -> gen_add fuel (encp p) (encp q) = Some (encp (padd p q))) /\
+  ((length p + 1 < fuel)%nat -> gen_add_int fuel (encp p) c = Some (encp (padd_Z p c))) /\
+  ((mul_fuel p q <= fuel)%nat -> gen_mul fuel (encp p) (encp q) = Some (encp (pmul p q))) /\
+  ((mul_fuel p (P_of_Z c) <= fuel)%nat -> gen_mul_int fuel (encp p) c = Some (encp (pmul_Z p c))).
+Proof.
+  intros p q c fuel. repeat split.
+  - apply br_eq_int. - apply br_eq. - apply br_bool. - apply br_neg. - apply br_add. - apply br_add_int.
+  - apply br_mul. - apply br_mul_int.
+Qed.
+
+(* non-vacuity: the encoding of 2*x0*x1 - 3 and of x0 + 1, their generated sum and product *)
+Example br_example :
+  gen_add 5 (encp [(-3, []); (2, [0%nat; 1%nat])]) (encp [(1, []); (1, [0%nat])])
+  = Some [[PInt (-2)]; [PInt 1; PStr 0]; [PInt 2; PStr 0; PStr 1]] /\
+  gen_mul 12 (encp [(-3, []); (2, [0%nat; 1%nat])]) (encp [(1, []); (1, [0%nat])])
+  = Some [[PInt (-3)]; [PInt (-3); PStr 0]; [PInt 2; PStr 0; PStr 0; PStr 1]; [PInt 2; PStr 0; PStr 1]].
+Proof. split; vm_compute; reflexivity. Qed.
